@@ -126,6 +126,38 @@ def main():
             if er.get("undecided"):
                 undecided.append("%s: %s" % (name, er["undecided"]))
 
+    # ---- thorough tier: stability at half the resource limit, and the sensitivity suite for this property ----------------------
+    thorough = {}
+    if tier == "thorough" and not args.no_evidence:
+        half = {}
+        with cf.ThreadPoolExecutor(max_workers=max(1, min(8, len(units)))) as ex:
+            futs = {ex.submit(engine.run_unit, u, False, 5): u for u in units}
+            for fu in cf.as_completed(futs):
+                r5 = fu.result()
+                half[futs[fu]] = {"status": r5["status"], "errors": (r5.get("summary") or {}).get("errors"), "wall_s": round(r5.get("wall", 0), 1)}
+        thorough["verus_rerun_rlimit_5"] = half
+        thorough["unstable_units"] = [u for u, h in half.items() if h["status"] != "ok"]
+        try:
+            sys.path.insert(0, os.path.join(ROOT, "bin"))
+            import run_mutants as rm
+            work = [(m[0], m[1], "subst", (m[2], m[3], m[4])) for m in rm.MUTANTS if m[1] == pid]
+            sd = os.path.join(ROOT, "seeded")
+            for d in sorted(os.listdir(sd)) if os.path.isdir(sd) else []:
+                if d.split("-")[0] == pid and os.path.exists(os.path.join(sd, d, "patch.diff")):
+                    work.append((d, pid, "patch", os.path.join(sd, d, "patch.diff")))
+            outm = []
+            with cf.ThreadPoolExecutor(max_workers=4) as ex:
+                for r in ex.map(lambda a: rm.run_one(*a), work):
+                    outm.append({"id": r["id"], "result": r["result"], "detail": (r.get("detail") or [r.get("why", "")])[:1]})
+            summ = {}
+            for r in outm:
+                summ[r["result"]] = summ.get(r["result"], 0) + 1
+            thorough["sensitivity"] = {"summary": summ, "mutants": outm,
+                                       "note": "each change applied to a scratch copy (VERIF_REPO); killed = the check reported a VIOLATION for this property; "
+                                               "undecided = construct outside the verifier's subset / lost anchor (exit 2); survived = exit 0"}
+        except Exception as e:  # the suite is additional information, never a verdict on /repo
+            thorough["sensitivity"] = {"error": repr(e)}
+
     # ---- evidence ---------------------------------------------------------------------------------
     labels = set()
     fn_list = []
@@ -215,6 +247,8 @@ def main():
         "failed": [{"obligation": f["obligation_id"], "msg": f["msg"], "repo": "%s:%s" % (f.get("src"), f.get("sline")),
                     "site": f.get("site_text")} for f in all_fail],
     }
+    if thorough:
+        cov["thorough"] = thorough
     if level != "proof":
         cov["explanation"] = spec.get("level_text", "")
     for name, er in extra.items():
